@@ -12,3 +12,4 @@ pub mod pathmap;
 pub mod reader;
 #[cfg(feature = "robotics")]
 pub mod robotics;
+pub mod snippet;
